@@ -523,8 +523,8 @@ static unsigned judge(void)
 				int fr = locate_silent_change(k, p), st = S_NONE, i;
 				const char *cls = "unlocated";
 				if (fr >= 0) {
-					/* style of the page just before that frame, as the all-quirks model (closest to the implementation) sees it */
-					m_init(&mdl, ALL);
+					/* style of the page just before that frame, as the model with the open quirks (closest to the implementation) sees it */
+					m_init(&mdl, m_open_quirks());
 					for (i = 0; i < fr; i++) { m_feed(&mdl, 0, frames[i].p[0][0], frames[i].p[0][1]); m_feed(&mdl, 1, frames[i].p[1][0], frames[i].p[1][1]); }
 					st = mdl.ch[p].style;
 					cls = pair_class(frames[fr].p[f][0], frames[fr].p[f][1]);
